@@ -69,7 +69,16 @@ def index_forms():
         ("f(v)", lambda v, n: ("call", "f", (v,))),
         ("f(v)+1", lambda v, n: B("+", ("call", "f", (v,)), one)),
         ("f(v)-1", lambda v, n: B("-", ("call", "f", (v,)), one)),
+        # piecewise constant / piecewise affine in the loop variable (slope 0 resp. 1 almost everywhere, with a jump)
+        # through an Integer function with an if-expression (pymoca does not take an if-expression written inline
+        # in a subscript under any setting)
+        ("z(v)", lambda v, n: ("call", "z", (v,))),
+        ("z(v)+v", lambda v, n: B("+", ("call", "z", (v,)), v)),
     ]
+
+
+PIECEWISE = ("z(v)", "z(v)+v")
+Z_FUNC = Func("z", [Decl("u", "Integer")], [Decl("y", "Integer")], [], [("assign", V("y"), ("if", B(">", V("u"), N(2)), N(4), N(1)))])
 
 
 def int_function(variant):
@@ -83,7 +92,7 @@ def int_function(variant):
 
 
 REAL_G = Func("g", [Decl("u")], [Decl("y")], [], [("assign", V("y"), B("+", B("*", N(2), V("u")), N(1)))])
-KINDS_QUICK = ("rhs", "lhs", "der", "call", "fstmt")
+KINDS_QUICK = ("rhs", "lhs", "der", "call", "call2", "fstmt")
 KINDS_MORE = ("col", "row", "init", "nested-value", "nested-index")
 
 
@@ -107,6 +116,8 @@ def index_model(kind, names, lo, length, fvariant="lin", whole=False):
     uses_f = any(nm.startswith("f(") for nm in names)
     if uses_f:
         funcs["f"] = int_function(fvariant)
+    if any(nm.startswith("z(") for nm in names):
+        funcs["z"] = Z_FUNC
     for v in range(lo, hi + 1):  # keep the model inside pymoca's (and Modelica's) domain: 1 <= subscript <= SIZE
         for sub in subs:
             val = M.evn(sub, {var[1]: v, "n": hi}, funcs)
@@ -134,6 +145,10 @@ def index_model(kind, names, lo, length, fvariant="lin", whole=False):
         if len(yr) > 1:
             rhs = B("-", rhs, B("*", N(2), _weighted(yr[1:])))
         return Model("M", [pn, x, y], [loop([("eq", xi, rhs)])], funcs=fl + [REAL_G])
+    if kind == "call2":  # the same user function applied to every differently subscripted element
+        if len(yr) < 2:
+            return None
+        return Model("M", [pn, x, y], [loop([("eq", xi, _weighted([("call", "g", (r,)) for r in yr]))])], funcs=fl + [REAL_G])
     if kind in ("col", "row"):
         w = Decl("w", dims=(SIZE, 2) if kind == "col" else (2, SIZE))
         wr = [("idx", "w", (sub, N(2)) if kind == "col" else (N(2), sub)) for sub in subs]
@@ -180,8 +195,11 @@ def fam_index(tier):
                 if m is not None:
                     m.forms = combo
                     out.append(("index-whole-" + kind, m))
+    near = ("v", "v+1", "v-1")
     for kind, nsub, los, lengths, fv in plans:
         for combo in itertools.product(names, repeat=nsub):
+            if nsub > 1 and tier == "quick" and any(nm in PIECEWISE for nm in combo) and not all(nm in PIECEWISE or nm in near for nm in combo):
+                continue  # quick: the piecewise forms next to the loop variable and its neighbours only
             if fv != "lin" and not any(nm.startswith("f(") for nm in combo):
                 continue  # the same text as the "lin" plan
             for lo in los:
